@@ -94,6 +94,54 @@ CLAIMED = {
                 design_ref="DESIGN.md §3 C14",
                 note="Descriptor numbers/buffers come from the cfg(ax_verif) accessor. Zero-length transfers with bad memory may succeed or fail.",
                 technique="TLA+ spec with history variables + TLC model checking; TLC trace validation of guest syscall interleavings"),
+    "C01": dict(category="model_checking",
+                text="spec/X86.tla is an executable step relation over byte-sequence values (BV.tla); TLC checks every BV operator (add/sub with "
+                     "carry, logic, shifts, widening signed/unsigned multiplication, division as computation and as the relation DIV/IDIV use, "
+                     "extensions, parity) exhaustively against Nat arithmetic at a small digit base. For every implemented non-control, non-stack "
+                     "form (spec/forms.json, derived from iced's opcode tables and probed on the pinned tree) in register and memory shapes, cases "
+                     "with boundary-biased random states are executed on the real Axecutor AND natively on this CPU; TLC validates both streams "
+                     "against X86.tla comparing all 16 GPRs, 16 XMM registers, every byte of the 6 guest areas and RIP. A violation is raised only "
+                     "where the CPU's event is accepted and ax's is rejected; 'form no longer executes' is a violation.",
+                design_ref="DESIGN.md §3 C01", note="Trusted: TLC; iced-x86's encoder and operand metadata (the instruction descriptor handed to the spec is written by the generator from iced's Instruction, never decoded by ax) - cross-checked by executing the same bytes natively; this machine's CPU as the hardware reference. Conformance is by testing: every form x shape is covered, values are sampled (boundary-biased + class-specific boundaries). A case on which specification and CPU disagree is excluded from judgement and counted in the evidence; FS-relative operands are judged by the specification alone. AF is not judged for ax where the architecture defines it.",
+                technique="TLA+ reference semantics model-checked against arithmetic ground truth; TLC trace validation of ax and native-CPU executions"),
+    "C02": dict(category="model_checking",
+                text="Same machinery, flag component: X86.tla gives each of CF/PF/AF/ZF/SF/OF/DF a status per instruction class and input (defined "
+                     "value / undefined / unaffected; e.g. masked shift count 0 leaves all flags, CF undefined beyond the width, OF defined for count 1 "
+                     "only); defined flags must equal, unaffected flags must be kept, other RFLAGS bits must not change. Incoming flags are random per "
+                     "case, shift counts come from {0,1,w-1,w,w+1,31,32,33,63,64,65,128,255,..}, multiplicands are placed at the CF/OF boundaries. "
+                     "Both ax and CPU streams are validated by TLC.",
+                design_ref="DESIGN.md §3 C02", note="Trusted: TLC; iced-x86's encoder and operand metadata (the instruction descriptor handed to the spec is written by the generator from iced's Instruction, never decoded by ax) - cross-checked by executing the same bytes natively; this machine's CPU as the hardware reference. Conformance is by testing: every form x shape is covered, values are sampled (boundary-biased + class-specific boundaries). A case on which specification and CPU disagree is excluded from judgement and counted in the evidence; FS-relative operands are judged by the specification alone. AF is not judged for ax where the architecture defines it.",
+                technique="TLA+ flag-effect table (def/undef/same) + TLC trace validation of ax and native-CPU executions"),
+    "C03": dict(category="model_checking",
+                text="TLC checks the 16-entry condition table for all flag states (complementary pairs, and composed with CMP at small width: JA <=> a>b "
+                     "unsigned, JG <=> a>b signed, ...). Every Jcc/JMP/CALL/RET/JRCXZ/JECXZ form is executed on ax and on the CPU with random flags, "
+                     "rel8/rel32 forward and backward landing pads, register-, memory- and RSP-relative-memory-indirect targets and RCX boundary values; "
+                     "TLC validates RIP (and everything else) of both streams against X86.tla.",
+                design_ref="DESIGN.md §3 C03", note="Trusted: TLC; iced-x86's encoder and operand metadata (the instruction descriptor handed to the spec is written by the generator from iced's Instruction, never decoded by ax) - cross-checked by executing the same bytes natively; this machine's CPU as the hardware reference. Conformance is by testing: every form x shape is covered, values are sampled (boundary-biased + class-specific boundaries). A case on which specification and CPU disagree is excluded from judgement and counted in the evidence; FS-relative operands are judged by the specification alone. AF is not judged for ax where the architecture defines it.",
+                technique="TLC model checking of the condition table; TLC trace validation of ax and native-CPU control transfers"),
+    "C04": dict(category="model_checking",
+                text="MC_Stack runs all <= 4-step programs of PUSH/POP/CALL/RET and [RSP] stores/loads with X86.tla's own step relation and checks the "
+                     "consequences the property names (store-then-pop, live slots survive, ret consumes [RSP]); the same laws FAIL under ax's convention "
+                     "(TLC counterexample = the machine-checked finding). Every PUSH/POP/CALL/RET form is executed on ax and the CPU with RSP anywhere "
+                     "in the stack page and distinct landing pads in [rsp] and [rsp+8]; an ax event must equal the architecture, or else equal ax's known "
+                     "convention EXACTLY (KNOWN-FINDING), or else it is a violation (wrong size, value, delta, clobbered slot, wrong operand evaluation).",
+                design_ref="DESIGN.md §3 C04", note="Trusted: TLC; iced-x86's encoder and operand metadata (the instruction descriptor handed to the spec is written by the generator from iced's Instruction, never decoded by ax) - cross-checked by executing the same bytes natively; this machine's CPU as the hardware reference. Conformance is by testing: every form x shape is covered, values are sampled (boundary-biased + class-specific boundaries). A case on which specification and CPU disagree is excluded from judgement and counted in the evidence; FS-relative operands are judged by the specification alone. AF is not judged for ax where the architecture defines it." + " The one-slot shift of every stack access is an open known finding (not repairable without editing ~50 existing tests).",
+                technique="TLC model checking of stack laws on the step relation; TLC trace validation with a named deviation action for the known finding"),
+    "C05": dict(category="model_checking",
+                text="MC_EA checks X86.tla's effective-address arithmetic against Nat ground truth for wrapping operands, all scales, both address sizes "
+                     "and segment bases. LEA r16/32/64 and load/store probes (MOV, MOVZX, ADD, MOVUPS) over 9 addressing shapes x all base/index registers x "
+                     "scales x disp8/disp32 x FS/GS x 0x67 run on ax and the CPU over position-dependent pattern memory, so a wrong address shows as a "
+                     "wrong value or a write elsewhere; both streams validated by TLC.",
+                design_ref="DESIGN.md §3 C05", note="Trusted: TLC; iced-x86's encoder and operand metadata (the instruction descriptor handed to the spec is written by the generator from iced's Instruction, never decoded by ax) - cross-checked by executing the same bytes natively; this machine's CPU as the hardware reference. Conformance is by testing: every form x shape is covered, values are sampled (boundary-biased + class-specific boundaries). A case on which specification and CPU disagree is excluded from judgement and counted in the evidence; FS-relative operands are judged by the specification alone. AF is not judged for ax where the architecture defines it.",
+                technique="TLC model checking of EA arithmetic; TLC trace validation of ax and native-CPU address probes"),
+    "C06": dict(category="model_checking",
+                text="The fault predicates of X86.tla (divide error: zero divisor or quotient not representable - decided relationally and checked "
+                     "exhaustively against Nat at small width; unmapped / past-the-end / non-writable / misaligned operands) decide for every case whether "
+                     "the CPU completes. Dividends are built as q*d+r with q at the representability boundary; every memory-capable form is run with its "
+                     "operand in RW, read-only, unmapped, straddling, exactly-fitting and misaligned memory, incl. RMW operands that leave memory "
+                     "unchanged; natively the fault is the signal that kills the worker. ax must fail exactly when the CPU faults and must never crash.",
+                design_ref="DESIGN.md §3 C06", note="Trusted: TLC; iced-x86's encoder and operand metadata (the instruction descriptor handed to the spec is written by the generator from iced's Instruction, never decoded by ax) - cross-checked by executing the same bytes natively; this machine's CPU as the hardware reference. Conformance is by testing: every form x shape is covered, values are sampled (boundary-biased + class-specific boundaries). A case on which specification and CPU disagree is excluded from judgement and counted in the evidence; FS-relative operands are judged by the specification alone. AF is not judged for ax where the architecture defines it.",
+                technique="TLA+ fault predicates model-checked against ground truth; TLC trace validation of ax and native-CPU outcomes"),
 }
 NOT_YET = {}
 
